@@ -1,8 +1,8 @@
 (* C02  Precedence, associativity and grouping follow the operator table.
    Only statements, [exact] and [Print Assumptions] live here. *)
 From Coq Require Import List Arith Bool NArith.
-From GV Require Import Base.Result Gen.TokenTypes Gen.Defs Model.Parser Spec.RefTable Spec.Pratt
-  Proofs.C02.Table Proofs.C02.Triples.
+From GV Require Import Base.Result Gen.TokenTypes Gen.Defs Model.Parser Spec.RefTable Spec.Pratt Spec.Chains
+  Proofs.C02.Table Proofs.C02.Triples Proofs.C02.Chains.
 Import ListNotations.
 
 (* (a) the priority map extracted from parser.rs orders every pair of definitions as
@@ -56,3 +56,80 @@ Proof. vm_compute. repeat split; reflexivity. Qed.
 
 Example C02_ex_coverage : N.leb 100000 (N.of_nat rendered_count) = true.
 Proof. vm_compute. reflexivity. Qed.
+
+(* (d) UNBOUNDED: binary chains of any length.  For every token list
+   v0 o1 v1 ... on vn  (n arbitrary) whose vi are value tokens and whose oi are binary
+   operator tokens of the table -- EVERY binary operator token, of any rank and either
+   associativity; no operator is excluded -- parse accepts and returns exactly the tree
+   the pinned table dictates.  Proved by induction over the chain (spine invariant of the
+   parser state, Proofs/C02/{Invariant,Steps,Chains}.v; spine insertion = precedence
+   climbing, Proofs/C02/Spine.v), not by enumeration. *)
+Theorem C02_binary_chains : forall toks : list token_type,
+  binary_chain toks = true -> c02_agree toks = true.
+Proof. exact c02_binary_chains. Qed.
+Print Assumptions C02_binary_chains.
+
+(* which operators the chains range over: all 38 binary operator tokens, among them the
+   ordinary arithmetic / comparison / logic operators, the right-to-left pair, and also the
+   comma list, the conditional forms, access and the apply forms *)
+Example C02_chain_operators :
+  forallb is_binary_tok
+    [TT_PlusSign; TT_Subtraction; TT_MultiplicationSign; TT_Division; TT_IntegerDivision; TT_Remainder;
+     TT_ExponentialSign; TT_Pair; TT_LessThan; TT_LessThanOrEqual; TT_GreaterThan; TT_GreaterThanOrEqual;
+     TT_Equality; TT_Inequality; TT_TypeEqual; TT_And; TT_Or; TT_Xor;
+     TT_BitwiseAnd; TT_BitwiseOr; TT_BitwiseXor; TT_BitwiseLeftShift; TT_BitwiseRightShift;
+     TT_Range; TT_StartExclusiveRange; TT_EndExclusiveRange; TT_ExclusiveRange; TT_Concatenation; TT_TypeCast;
+     TT_Comma; TT_JumpIfTrue; TT_JumpIfFalse; TT_ElseJump; TT_Period;
+     TT_Apply; TT_ApplyTo; TT_PartialApply; TT_InfixIdentifier] = true /\
+  length (filter is_binary_tok all_token_type) = 38 /\
+  length (filter is_value_tok all_token_type) = 9.
+Proof. vm_compute. repeat split; reflexivity. Qed.
+
+(* a concrete chain with 8 operators of mixed rank and associativity satisfies the
+   hypothesis, and the tree the theorem speaks about is the expected one:
+     a = 1 + 2 * 3 ** x - 4 = b < 5 && c
+   parses as  (a = (((1 + (2 * (3 ** x))) - 4) = b)) ... with `=` grouping to the right *)
+Definition C02_sample_chain : list token_type :=
+  [TT_Identifier; TT_Pair; TT_Number; TT_PlusSign; TT_Number; TT_MultiplicationSign; TT_Number;
+   TT_ExponentialSign; TT_Identifier; TT_Subtraction; TT_Number; TT_Pair; TT_Identifier;
+   TT_LessThan; TT_Number; TT_And; TT_Identifier].
+
+Example C02_ex_chain_hypothesis : binary_chain C02_sample_chain = true.
+Proof. vm_compute. reflexivity. Qed.
+
+Example C02_ex_chain_tree :
+  pratt C02_sample_chain =
+  Some (RBin D_And (Some 15)
+          (RBin D_LessThan (Some 13)
+             (RBin D_Pair (Some 1) (RAtom D_Identifier 0)
+                (RBin D_Pair (Some 11)
+                   (RBin D_Subtraction (Some 9)
+                      (RBin D_Addition (Some 3) (RAtom D_Number 2)
+                         (RBin D_MultiplicationSign (Some 5) (RAtom D_Number 4)
+                            (RBin D_ExponentialSign (Some 7) (RAtom D_Number 6) (RAtom D_Identifier 8))))
+                      (RAtom D_Number 10))
+                   (RAtom D_Identifier 12)))
+             (RAtom D_Number 14))
+          (RAtom D_Identifier 16)).
+Proof. vm_compute. reflexivity. Qed.
+
+(* the comparison behind c02_agree is discriminating: the same operators grouped the
+   other way are a different tree, and a tree with a wrong token index is rejected *)
+Example C02_ex_discriminating :
+  rtree_eqb (RBin D_Addition (Some 1) (RAtom D_Number 0)
+               (RBin D_MultiplicationSign (Some 3) (RAtom D_Number 2) (RAtom D_Number 4)))
+            (RBin D_MultiplicationSign (Some 3)
+               (RBin D_Addition (Some 1) (RAtom D_Number 0) (RAtom D_Number 2)) (RAtom D_Number 4)) = false /\
+  rtree_eqb (RBin D_Pair (Some 1) (RAtom D_Number 0) (RBin D_Pair (Some 3) (RAtom D_Number 2) (RAtom D_Number 4)))
+            (RBin D_Pair (Some 3) (RBin D_Pair (Some 1) (RAtom D_Number 0) (RAtom D_Number 2)) (RAtom D_Number 4)) = false /\
+  rtree_eqb (RBin D_Addition (Some 1) (RAtom D_Number 0) (RAtom D_Number 2))
+            (RBin D_Addition (Some 1) (RAtom D_Number 0) (RAtom D_Number 3)) = false /\
+  (* and c02_agree itself fails on a node array that is not the dictated tree: parse of
+     `1 + 2 * 3` read against the reference of `1 * 2 + 3` *)
+  (match parse [TT_Number; TT_PlusSign; TT_Number; TT_MultiplicationSign; TT_Number],
+         pratt [TT_Number; TT_MultiplicationSign; TT_Number; TT_PlusSign; TT_Number] with
+   | Ok (root, ns), Some t =>
+       match tree_of (2 * length ns + 2) ns 0 root with Some t' => rtree_eqb t t' | None => false end
+   | _, _ => true
+   end) = false.
+Proof. vm_compute. repeat split; reflexivity. Qed.
